@@ -1344,3 +1344,507 @@ Section HLoop.
     rewrite Hlast. reflexivity.
   Qed.
 End HLoop.
+
+(* 2f. An honest verified multi-proof has the honest shape (no collision-freeness needed: the
+   content of the sibling vector is read off the construction by from_path_proofs) *)
+
+Lemma app_eq_len : forall (A : Type) (a b c d : list A),
+  a ++ b = c ++ d -> length a = length c -> a = c /\ b = d.
+Proof.
+  intros A. induction a as [|x a IH]; intros b c d He Hl; destruct c as [|y c]; cbn [length] in Hl; try discriminate.
+  - split; [reflexivity|exact He].
+  - cbn [app] in He. injection He as Hx He. destruct (IH b c d He ltac:(lia)) as [-> ->]. subst. split; reflexivity.
+Qed.
+
+Lemma split_unique : forall (A : Type) (g : A -> bool) (l1 l2 l1' l2' : list A),
+  l1 ++ l2 = l1' ++ l2' ->
+  (forall x, In x l1 -> g x = false) -> (forall x, In x l2 -> g x = true) ->
+  (forall x, In x l1' -> g x = false) -> (forall x, In x l2' -> g x = true) ->
+  length l1 = length l1'.
+Proof.
+  intros A g. induction l1 as [|x l1 IH]; intros l2 l1' l2' He H1 H2 H1' H2'; destruct l1' as [|y l1'].
+  - reflexivity.
+  - exfalso. cbn [app] in He. subst l2.
+    pose proof (H2 y (or_introl eq_refl)) as E1. pose proof (H1' y (or_introl eq_refl)) as E2. congruence.
+  - exfalso. cbn [app] in He. subst l2'.
+    pose proof (H2' x (or_introl eq_refl)) as E1. pose proof (H1 x (or_introl eq_refl)) as E2. congruence.
+  - cbn [app] in He. injection He as Hx He. cbn [length]. f_equal.
+    apply (IH l2 l1' l2' He); try assumption.
+    + intros z Hz. apply H1. right. exact Hz.
+    + intros z Hz. apply H1'. right. exact Hz.
+Qed.
+
+Lemma firstn_pre : forall (A : Type) (a r : list A), firstn (length a) (a ++ r) = a.
+Proof. intros A a r. rewrite firstn_app, Nat.sub_diag. cbn [firstn]. rewrite app_nil_r. apply firstn_all. Qed.
+
+Lemma skipn_pre : forall (A : Type) (a r : list A), skipn (length a) (a ++ r) = r.
+Proof. intros A a r. rewrite skipn_app, Nat.sub_diag, skipn_all. reflexivity. Qed.
+
+Lemma firstn_app3 : forall (A : Type) (X a b c : list A),
+  firstn (length (a ++ b ++ c)) X = a ++ b ++ c ->
+  firstn (length a) X = a /\ firstn (length b) (skipn (length a) X) = b /\
+  firstn (length c) (skipn (length a + length b) X) = c.
+Proof.
+  intros A X a b c Hf.
+  assert (HX : X = a ++ b ++ c ++ skipn (length (a ++ b ++ c)) X).
+  { rewrite <- (firstn_skipn (length (a ++ b ++ c)) X) at 1. rewrite Hf. rewrite <- !app_assoc. reflexivity. }
+  set (Y := skipn (length (a ++ b ++ c)) X) in *. clearbody Y. clear Hf. subst X.
+  split; [apply firstn_pre|]. split.
+  - rewrite skipn_pre. apply firstn_pre.
+  - rewrite <- skipn_skipn'. rewrite skipn_pre, skipn_pre. apply firstn_pre.
+Qed.
+
+Section Honest.
+  Variable H : Hasher.
+  Variable n : nat.
+
+  Lemma walk_chain : forall f d p (L : kv) k s tm,
+    d + f = n -> goodkv n d p L -> length k = n ->
+    walk H (mk f d L) k d = (s, tm) ->
+    s = chain_sibs H n (firstn (length s) (skipn d k)) d L /\
+    term_kv tm (sides (firstn (length s) (skipn d k)) d L).
+  Proof.
+    induction f as [|f IH]; intros d p L k s tm Hdf Hg Hk Hw.
+    all: destruct (kv_cases L) as [->|[[k0 [v0 ->]]|HL2]].
+    1,4: (rewrite mk_nil in Hw; cbn [walk] in Hw; inversion Hw; subst; split; reflexivity).
+    1,3: (rewrite mk_single in Hw; cbn [walk] in Hw; inversion Hw; subst; split; reflexivity).
+    - exfalso. apply (no_fuel0 d L); [apply Hg| |eapply goodkv_agree; exact Hg|exact HL2].
+      intros k' v' Hin. destruct Hg as [_ Hg]. destruct (Hg k' v' Hin). lia.
+    - rewrite walk_mk_step in Hw by exact HL2.
+      destruct (walk H (mk f (S d) (side (bit k d) d L)) k (S d)) as [s' tm'] eqn:Ew.
+      inversion Hw; subst s tm. clear Hw.
+      destruct (IH (S d) (p ++ [bit k d]) (side (bit k d) d L) k s' tm' ltac:(lia)
+                   (goodkv_side n d p (bit k d) L ltac:(lia) Hg) Hk Ew) as [Hs Ht].
+      cbn [length]. rewrite (skipn_bit d k) by lia. cbn [firstn chain_sibs sides].
+      replace (n - S d) with f by lia.
+      split; [f_equal; exact Hs|exact Ht].
+  Qed.
+
+  Variable S0 : kv.
+  Hypothesis Hwf : wf n S0.
+
+  Lemma wf_goodkv : goodkv n 0 [] S0.
+  Proof.
+    destruct Hwf as [Hnd Hlen]. split; [exact Hnd|]. intros k x Hin. split; [apply (Hlen k x Hin)|reflexivity].
+  Qed.
+
+  (* a path proof whose siblings and terminal are those of the canonical trie of S0 along its own
+     terminal path *)
+  Definition canon_pp (pp : path_proof H) : Prop :=
+    let d := length (pp_siblings pp) in
+    d <= length (ptp H pp) /\
+    pp_siblings pp = chain_sibs H n (firstn d (ptp H pp)) 0 S0 /\
+    term_kv (pp_terminal pp) (sides (firstn d (ptp H pp)) 0 S0).
+
+  Lemma canonical_canon_pp : forall k, length k = n -> canon_pp (canonical_proof H n S0 k).
+  Proof.
+    intros k Hk. destruct (canon_facts H n S0 k Hwf Hk) as [Hdn [_ [Hdl Hpf]]].
+    unfold canon_pp, ptp. rewrite Hpf. split; [exact Hdl|].
+    unfold canonical_proof in *.
+    destruct (walk H (mk n 0 S0) k 0) as [s tm] eqn:Ew. cbn [pp_siblings pp_terminal] in *.
+    destruct (walk_chain n 0 [] S0 k s tm ltac:(lia) wf_goodkv Hk Ew) as [Hs Ht].
+    cbn [skipn] in Hs, Ht. split; assumption.
+  Qed.
+
+  Variable pps : list (path_proof H).
+  Variable sibs : list (node H).
+
+  Lemma VR_CR_HVR : forall pfx off used nd T B, VR sibs pfx off used nd T B ->
+    forall lo hi P ss nd' cost, CR H pps pfx lo hi P ss nd' cost ->
+    same_paths P T -> firstn (length ss) (skipn off sibs) = ss ->
+    (forall i pp, lo <= i -> i < hi -> nth_error pps i = Some pp -> canon_pp pp) ->
+    HVR H n sibs pfx off used (sides pfx 0 S0) T B /\ used = length ss.
+  Proof.
+    intros pfx off used nd T B HV.
+    induction HV as [pfx off t d Hp H1 H2 H3|pfx cb off lu ru ln rn TL TR BL BR HL IHL HR IHR];
+      intros lo hi P ss nd' cost HC Hsame Hss Hcan.
+    - (* one terminal *)
+      inversion HC as [pfx0 lo0 pp Hn Hpp Hl1 Hl2|pfx0 cb0 lo0 mid hi0 pl PL sl ln0 cL PR sr rn0 cR Hn Hlen HCL HCR];
+        subst.
+      + unfold same_paths in Hsame. cbn [map mkp mpp_terminal mpp_depth vm_terminal vm_depth] in Hsame.
+        injection Hsame as Ht Hd. subst t d.
+        destruct (Hcan lo pp (le_n _) ltac:(lia) Hn) as [Hc1 [Hc2 Hc3]].
+        unfold ptp in *.
+        set (dd := length (pp_siblings pp)) in *.
+        set (ub := firstn (dd - length pfx) (skipn (length pfx) (term_path (pp_terminal pp)))) in *.
+        assert (Hfd : firstn dd (term_path (pp_terminal pp)) = pfx ++ ub).
+        { unfold ub. rewrite (has_pfx_skipn _ _ Hp) at 1. rewrite firstn_app.
+          rewrite (firstn_all2 pfx) by lia. reflexivity. }
+        rewrite Hfd in Hc2, Hc3.
+        rewrite chain_sibs_app in Hc2. rewrite sides_app in Hc3. cbn [plus] in Hc2, Hc3.
+        assert (Hsk : skipn (length pfx) (pp_siblings pp) = chain_sibs H n ub (length pfx) (sides pfx 0 S0)).
+        { rewrite Hc2. rewrite <- (chain_sibs_length H n pfx 0 S0) at 1. apply skipn_pre. }
+        assert (Hlss : length (skipn (length pfx) (pp_siblings pp)) = dd - length pfx).
+        { rewrite skipn_length. reflexivity. }
+        split; [|symmetry; exact Hlss].
+        apply HVR_one; try assumption.
+        rewrite Hlss in Hss. rewrite Hss. exact Hsk.
+      + exfalso. pose proof (MPS_nonempty H _ _ _ _ (CR_MPS H pps _ _ _ _ _ _ _ HCL)) as N1.
+        pose proof (MPS_nonempty H _ _ _ _ (CR_MPS H pps _ _ _ _ _ _ _ HCR)) as N2.
+        unfold same_paths in Hsame. apply (f_equal (@length _)) in Hsame.
+        rewrite !map_length, app_length in Hsame. cbn [length] in Hsame.
+        destruct PL; [congruence|]. destruct PR; [congruence|]. cbn [length] in Hsame. lia.
+    - (* a bisection *)
+      pose proof (VR_nonempty H sibs _ _ _ _ _ _ HL) as HneL.
+      pose proof (VR_nonempty H sibs _ _ _ _ _ _ HR) as HneR.
+      inversion HC as [pfx0 lo0 pp Hn Hpp Hl1 Hl2|pfx0 cb0 lo0 mid hi0 pl PL sl ln0 cL PR sr rn0 cR Hn Hlen HCL HCR];
+        subst.
+      + exfalso. unfold same_paths in Hsame. apply (f_equal (@length _)) in Hsame.
+        rewrite !map_length, app_length in Hsame. cbn [length] in Hsame.
+        destruct TL; [congruence|]. destruct TR; [congruence|]. cbn [length] in Hsame. lia.
+      + pose proof (CR_MPS H pps _ _ _ _ _ _ _ HCL) as HML. pose proof (CR_MPS H pps _ _ _ _ _ _ _ HCR) as HMR.
+        pose proof (MPS_nonempty H _ _ _ _ HML) as NL. pose proof (MPS_nonempty H _ _ _ _ HMR) as NR.
+        (* the lists of terminal paths *)
+        assert (Hpaths : map vpath TL ++ map vpath TR = map tpath PL ++ map tpath PR).
+        { unfold same_paths in Hsame.
+          apply (f_equal (map (fun x : terminal * nat => term_path (fst x)))) in Hsame.
+          rewrite !map_map in Hsame. cbn [fst] in Hsame. rewrite !map_app in Hsame. exact Hsame. }
+        assert (HpTL : forall x, In x (map vpath TL) -> has_pfx ((pfx ++ cb) ++ [false]) x).
+        { intros x Hx. apply in_map_iff in Hx. destruct Hx as [t [<- Hin]]. rewrite <- app_assoc.
+          apply (VR_pfx H sibs _ _ _ _ _ _ HL t Hin). }
+        assert (HpTR : forall x, In x (map vpath TR) -> has_pfx ((pfx ++ cb) ++ [true]) x).
+        { intros x Hx. apply in_map_iff in Hx. destruct Hx as [t [<- Hin]]. rewrite <- app_assoc.
+          apply (VR_pfx H sibs _ _ _ _ _ _ HR t Hin). }
+        assert (HpPL : forall x, In x (map tpath PL) -> has_pfx ((pfx ++ cb0) ++ [false]) x).
+        { intros x Hx. apply in_map_iff in Hx. destruct Hx as [t [<- Hin]]. rewrite <- app_assoc.
+          apply (MPS_pfx H _ _ _ _ HML t Hin). }
+        assert (HpPR : forall x, In x (map tpath PR) -> has_pfx ((pfx ++ cb0) ++ [true]) x).
+        { intros x Hx. apply in_map_iff in Hx. destruct Hx as [t [<- Hin]]. rewrite <- app_assoc.
+          apply (MPS_pfx H _ _ _ _ HMR t Hin). }
+        (* the common bits agree *)
+        assert (Hcb : cb0 = cb).
+        { destruct TL as [|t0 TL']; [congruence|]. destruct PL as [|p0 PL']; [congruence|].
+          cbn [map app] in Hpaths. injection Hpaths as Hx0 Hrest.
+          set (tl := last TR dummy_path).
+          assert (Hlt : In (vpath tl) (map vpath TR)) by (apply in_map; apply last_In'; exact HneR).
+          assert (Hlp : In (vpath tl) (map tpath PR)).
+          { assert (Hlast : last (map vpath TL' ++ map vpath TR) [] = last (map tpath PL' ++ map tpath PR) [])
+              by (rewrite Hrest; reflexivity).
+            rewrite !last_app_ne' in Hlast by (intros E; apply map_eq_nil in E; congruence).
+            assert (Hl1 : last (map vpath TR) [] = vpath tl).
+            { unfold tl. clear -HneR. induction TR as [|a TR IH]; [congruence|].
+              destruct TR as [|b TR]; [reflexivity|]. cbn [map] in *.
+              change (last (vpath a :: vpath b :: map vpath TR) []) with (last (vpath b :: map vpath TR) []).
+              change (last (a :: b :: TR) dummy_path) with (last (b :: TR) dummy_path).
+              apply IH. discriminate. }
+            rewrite <- Hl1, Hlast. apply last_In'. intros E. apply map_eq_nil in E. congruence. }
+          pose proof (HpTL (vpath t0) (or_introl eq_refl)) as A1.
+          pose proof (HpPL (tpath p0) (or_introl eq_refl)) as A2. rewrite <- Hx0 in A2.
+          pose proof (HpTR _ Hlt) as A3. pose proof (HpPR _ Hlp) as A4.
+          pose proof (has_pfx_split_common (pfx ++ cb) _ _ false A1 A3) as C1.
+          pose proof (has_pfx_split_common (pfx ++ cb0) _ _ false A2 A4) as C2.
+          rewrite C1 in C2. rewrite !app_length in C2.
+          apply has_pfx_app_l in A1. apply has_pfx_app_l in A2. unfold has_pfx in A1, A2.
+          rewrite !app_length in A1, A2.
+          replace (length pfx + length cb0) with (length pfx + length cb) in A2 by lia.
+          rewrite A1 in A2. apply app_inv_head in A2. symmetry. exact A2. }
+        subst cb0.
+        (* the bisection points agree *)
+        assert (Hlen1 : length (map vpath TL) = length (map tpath PL)).
+        { apply (split_unique _ (fun x : key => bit x (length (pfx ++ cb))) _ _ _ _ Hpaths).
+          - intros x Hx. apply (has_pfx_bit (pfx ++ cb) false [] x). apply HpTL. exact Hx.
+          - intros x Hx. apply (has_pfx_bit (pfx ++ cb) true [] x). apply HpTR. exact Hx.
+          - intros x Hx. apply (has_pfx_bit (pfx ++ cb) false [] x). apply HpPL. exact Hx.
+          - intros x Hx. apply (has_pfx_bit (pfx ++ cb) true [] x). apply HpPR. exact Hx. }
+        rewrite !map_length in Hlen1.
+        unfold same_paths in Hsame. rewrite !map_app in Hsame.
+        destruct (app_eq_len _ _ _ _ _ Hsame ltac:(rewrite !map_length; exact Hlen1)) as [HsameL HsameR].
+        (* the siblings *)
+        set (seg := firstn (length cb) (skipn (length pfx) (pp_siblings pl))) in *.
+        assert (Hlseg : length seg = length cb).
+        { unfold seg. rewrite firstn_length, skipn_length. lia. }
+        destruct (firstn_app3 _ (skipn off sibs) seg sl sr Hss) as [Hs1 [Hs2 Hs3]].
+        rewrite skipn_skipn' in Hs2, Hs3. rewrite Hlseg in Hs1, Hs2, Hs3.
+        destruct (CR_bounds H pps _ _ _ _ _ _ _ HCL) as [Blo [_ _]].
+        destruct (CR_bounds H pps _ _ _ _ _ _ _ HCR) as [Bmid [_ _]].
+        destruct (IHL lo mid PL sl ln0 cL HCL HsameL Hs2) as [HVL HluL].
+        { intros i pp Hi1 Hi2. apply Hcan; lia. }
+        subst lu.
+        destruct (IHR mid hi PR sr rn0 cR HCR HsameR ltac:(rewrite <- Nat.add_assoc; exact Hs3)) as [HVR' HruR].
+        { intros i pp Hi1 Hi2. apply Hcan; lia. }
+        subst ru.
+        split; [|rewrite !app_length, Hlseg; lia].
+        rewrite !sides_app in HVL, HVR'. cbn [plus sides] in HVL, HVR'.
+        apply HVR_split; try assumption.
+        (* the common siblings are the chain siblings of the first path proof *)
+        rewrite Hs1.
+        destruct (Hcan lo pl (le_n _) ltac:(lia) Hn) as [Hc1 [Hc2 _]].
+        destruct (CR_pfx H pps _ _ _ _ _ _ _ HCL lo (le_n _) Blo) as [pl' [Hn' Hppl]].
+        rewrite Hn in Hn'. inversion Hn'; subst pl'. clear Hn'.
+        rewrite app_assoc in Hppl. apply has_pfx_app_l in Hppl.
+        set (dl := length (pp_siblings pl)) in *.
+        assert (Hpd : has_pfx (pfx ++ cb) (firstn dl (ptp H pl))).
+        { unfold has_pfx in *. rewrite firstn_firstn_le by (rewrite app_length; lia). exact Hppl. }
+        apply has_pfx_skipn in Hpd. rewrite Hpd in Hc2.
+        rewrite <- !app_assoc in Hc2. rewrite !chain_sibs_app in Hc2. cbn [plus] in Hc2.
+        unfold seg. rewrite Hc2.
+        rewrite <- (chain_sibs_length H n pfx 0 S0) at 1. rewrite skipn_pre.
+        rewrite <- (chain_sibs_length H n cb (length pfx) (sides pfx 0 S0)) at 1. apply firstn_pre.
+  Qed.
+End Honest.
+
+Lemma honest_shape : forall (H : Hasher), HasherOK H ->
+  forall n S ks (mp : multi_proof H) v, honest n S ks mp v ->
+  HVR H n (vmp_siblings v) [] 0 (length (vmp_siblings v)) S (vmp_inner v) (vmp_bisections v).
+Proof.
+  intros H OK n S ks mp v [Hwf [Hne [Hs [Hk [Hndt [Hfp Hv]]]]]].
+  pose proof Hwf as [Hnd Hlen].
+  set (pps := map (canonical_proof H n S) ks) in *.
+  set (gt := fun k => pp_terminal (canonical_proof H n S k)).
+  set (gs := fun k => pp_siblings (canonical_proof H n S k)).
+  assert (Hgpp : forall k, canonical_proof H n S k = gpp H gt gs k).
+  { intros k. unfold gpp, gt, gs. destruct (canonical_proof H n S k). reflexivity. }
+  set (M := max_path_len (fun p : path_proof H => term_path (pp_terminal p)) pps).
+  destruct (canon_CR H pps M n 0 S [] [] ks 0 gt gs) as [P [ss [cost [HC [Hcost _]]]]];
+    try assumption; try reflexivity.
+  - intros k Hin. unfold M.
+    apply (max_path_len_In _ (fun p : path_proof H => term_path (pp_terminal p)) pps (canonical_proof H n S k)).
+    unfold pps. apply in_map. exact Hin.
+  - intros k Hin. split; [apply Hk; exact Hin|reflexivity].
+  - intros k Hin. unfold gs, gt, canonical_proof.
+    destruct (walk H (mk n 0 S) k 0) as [s tm]. split; reflexivity.
+  - intros i k Hn. cbn [plus]. unfold pps. rewrite nth_error_map, Hn. cbn [option_map].
+    rewrite Hgpp. reflexivity.
+  - assert (Hlp : length ks = length pps) by (unfold pps; rewrite map_length; reflexivity).
+    cbn [plus] in HC. rewrite Hlp in HC.
+    pose proof (from_path_proofs_CR H pps P ss _ cost HC) as Hfp'.
+    fold M in Hfp'. rewrite Hlp in Hcost.
+    specialize (Hfp' ltac:(nia)).
+    rewrite Hfp in Hfp'. inversion Hfp'; subst mp. clear Hfp'.
+    destruct (MultiProof_proofs.verify_ok_inv H _ _ v Hv) as [nd [_ [HV [Hsib [_ [_ [_ Hsame]]]]]]].
+    cbn [mp_paths mp_siblings] in *.
+    assert (HPne : P <> []) by (apply (MPS_nonempty H _ _ _ _ (CR_MPS H pps _ _ _ _ _ _ _ HC))).
+    specialize (Hsame HPne). rewrite Hsib.
+    destruct (VR_CR_HVR H n S pps ss [] 0 (length ss) nd (vmp_inner v) (vmp_bisections v) HV
+                0 (length pps) P ss _ cost HC Hsame) as [Hshape _].
+    + cbn [skipn]. apply firstn_all.
+    + intros i pp _ _ Hn. unfold pps in Hn. apply nth_error_map_inv in Hn. destruct Hn as [k [Hnk <-]].
+      apply (canonical_canon_pp H n S Hwf). apply Hk. eapply nth_error_In. exact Hnk.
+    + exact Hshape.
+Qed.
+
+Lemma terminal_contains_under : forall (t : verified_multi_path) k,
+  terminal_contains t k = Ok true -> under t k.
+Proof.
+  intros t k Hc. unfold terminal_contains, slice_to_res in Hc.
+  destruct (Nat.ltb (length k) (vm_depth t)); cbn [bind] in Hc; [discriminate|].
+  destruct (Nat.ltb (length (term_path (vm_terminal t))) (vm_depth t)); cbn [bind] in Hc; [discriminate|].
+  inversion Hc as [Hc']. apply key_eqb_true_iff in Hc'. exact Hc'.
+Qed.
+
+Lemma apply_upd_rel : forall S (W : wlist), sorted_keys (map fst W) = true -> upd_rel S W (apply S W).
+Proof.
+  intros S W Hs k. rewrite get_apply. rewrite last_write_wget by (apply sk_NoDup; exact Hs). reflexivity.
+Qed.
+
+(* C07, update half, for any key length n.  The write set must be strictly ascending, over n-bit
+   keys, and IN SCOPE: every written key lies under the proven path of some terminal of the
+   multi-proof (the mirror's own test, terminal_contains); otherwise verify_update returns
+   Err MultiOpsOutOfOrder / Err MultiOpOutOfScope by design.  Terminals without operations are
+   fine (unlike the per-path verifier there is no PathWithoutOps), and the empty write set
+   returns the old root.  No collision-freeness is needed. *)
+Theorem multi_update_correct_n : forall (H : Hasher), HasherOK H ->
+  forall n S ks (mp : multi_proof H) v W, honest n S ks mp v ->
+  kv_sorted S = true ->
+  sorted_keys (map fst W) = true -> (forall k o, In (k, o) W -> length k = n) ->
+  (forall k o, In (k, o) W -> exists t, In t (vmp_inner v) /\ terminal_contains t k = Ok true) ->
+  MultiUpdate.verify_update H n v W = Ok (root_n H n (apply S W)).
+Proof.
+  intros H OK n S ks mp v W Hh HsS HsW HlW Hscope.
+  pose proof Hh as [Hwf [_ [_ [_ [_ [_ Hv]]]]]].
+  destruct W as [|c W].
+  - cbn [MultiUpdate.verify_update apply fold_left].
+    destruct (MultiProof_proofs.verify_ok_inv H _ _ v Hv) as [_ [_ [_ [_ [Hr _]]]]]. rewrite Hr. reflexivity.
+  - unfold root_n.
+    apply (verify_update_shape H OK n v S (apply S (c :: W))).
+    + eapply honest_shape; eassumption.
+    + eapply honest_typed; eassumption.
+    + apply wf_goodkv. exact Hwf.
+    + apply wf_goodkv. apply apply_wf; assumption.
+    + exact HsW.
+    + intros k o Hin. split; [eapply HlW; exact Hin|].
+      destruct (Hscope k o Hin) as [t [Hint Hc]]. exists t. split; [exact Hint|].
+      apply terminal_contains_under. exact Hc.
+    + apply apply_upd_rel. exact HsW.
+    + discriminate.
+Qed.
+
+Theorem multi_update_correct : forall (H : Hasher), HasherOK H ->
+  forall S ks (mp : multi_proof H) v W, honest 256 S ks mp v ->
+  kv_sorted S = true ->
+  sorted_keys (map fst W) = true -> (forall k o, In (k, o) W -> length k = 256) ->
+  (forall k o, In (k, o) W -> exists t, In t (vmp_inner v) /\ terminal_contains t k = Ok true) ->
+  MultiUpdate.verify_update H 256 v W = Ok (root_n H 256 (apply S W)).
+Proof. intros H OK S ks mp v W. apply (multi_update_correct_n H OK 256). Qed.
+
+(* ... and therefore the same new root as the per-path update verifier on the witness grouped
+   by terminal, and as the store.  (The two verifiers have different error types, so "equal
+   results" is stated as: both return Ok of the same node, the root of the updated set.) *)
+Corollary multi_update_agrees_n : forall (H : Hasher), HasherOK H ->
+  forall n S ks (mp : multi_proof H) v W, honest n S ks mp v ->
+  kv_sorted S = true ->
+  sorted_keys (map fst W) = true -> (forall k o, In (k, o) W -> length k = n) ->
+  (forall k o, In (k, o) W -> exists t, In t (vmp_inner v) /\ terminal_contains t k = Ok true) ->
+  exists r, MultiUpdate.verify_update H n v W = Ok r /\
+            VerifyUpdate.verify_update H n (root_n H n S) (group H n S W) = Ok r /\
+            r = root_n H n (apply S W).
+Proof.
+  intros H OK n S ks mp v W Hh HsS HsW HlW Hscope.
+  exists (root_n H n (apply S W)). split; [|split; [|reflexivity]].
+  - eapply multi_update_correct_n; eassumption.
+  - destruct Hh as [Hwf _]. apply verify_update_correct; assumption.
+Qed.
+
+Corollary multi_update_agrees : forall (H : Hasher), HasherOK H ->
+  forall S ks (mp : multi_proof H) v W, honest 256 S ks mp v ->
+  kv_sorted S = true ->
+  sorted_keys (map fst W) = true -> (forall k o, In (k, o) W -> length k = 256) ->
+  (forall k o, In (k, o) W -> exists t, In t (vmp_inner v) /\ terminal_contains t k = Ok true) ->
+  exists r, MultiUpdate.verify_update H 256 v W = Ok r /\
+            VerifyUpdate.verify_update H 256 (root_n H 256 S) (group H 256 S W) = Ok r /\
+            r = root_n H 256 (apply S W).
+Proof. intros H OK S ks mp v W. apply (multi_update_agrees_n H OK 256). Qed.
+
+Print Assumptions multi_queries_agree.
+Print Assumptions multi_queries_converse.
+Print Assumptions multi_update_correct.
+Print Assumptions multi_update_agrees.
+
+(* ------------------------------------------------------------------------------------------ *)
+(* executable instances (free hasher, 8-bit and 3-bit keys)                                     *)
+(* ------------------------------------------------------------------------------------------ *)
+Module MultiUpdateProofsExamples.
+  Definition k (bits : list nat) : key := map (fun b => Nat.eqb b 1) bits.
+  Definition S8 : kv :=
+    [(k[0;0;0;0;0;0;0;1], 1%N); (k[0;0;0;0;0;0;1;0], 2%N); (k[0;1;0;0;0;0;0;0], 3%N);
+     (k[1;0;1;0;0;0;0;0], 4%N); (k[1;0;1;1;0;0;0;0], 5%N); (k[1;1;1;1;1;1;1;1], 6%N)].
+  Definition ks8 := [k[0;0;0;0;0;0;0;0]; k[0;0;0;0;0;0;1;0]; k[0;1;1;0;0;0;0;0]; k[1;0;1;0;0;0;0;0]; k[1;0;1;1;0;0;0;0]].
+
+  Definition honest_v (n : nat) (S : kv) (ks : list key) : option (verified_multi_proof FreeH) :=
+    match from_path_proofs FreeH (map (canonical_proof FreeH n S) ks) with
+    | Ok mp => match MultiProof.verify FreeH mp (root_n FreeH n S) with Ok v => Some v | _ => None end
+    | _ => None
+    end.
+
+  (* multi-proof update = root of the updated set, per-path update = root of the updated set *)
+  Definition check (S : kv) ks W : option (res multi_verify_update_error bool * bool) :=
+    match honest_v 8 S ks with
+    | Some v =>
+        Some (match MultiUpdate.verify_update FreeH 8 v W with
+              | Ok r => Ok (fnode_eqb r (root_n FreeH 8 (apply S W)))
+              | Err e => Err e
+              | Panic => Panic
+              end,
+              match VerifyUpdate.verify_update FreeH 8 (root_n FreeH 8 S) (group FreeH 8 S W) with
+              | Ok r => fnode_eqb r (root_n FreeH 8 (apply S W))
+              | _ => false
+              end)
+    | None => None
+    end.
+
+  (* deletions that empty a sub-trie (the two leaves below 000000), then more of the left half *)
+  Example del_subtrie : check S8 ks8 [(k[0;0;0;0;0;0;0;1], None); (k[0;0;0;0;0;0;1;0], None)] = Some (Ok true, true).
+  Proof. vm_compute. reflexivity. Qed.
+  Example del_left_half :
+    check S8 ks8 [(k[0;0;0;0;0;0;0;1], None); (k[0;0;0;0;0;0;1;0], None); (k[0;1;0;0;0;0;0;0], None)] = Some (Ok true, true).
+  Proof. vm_compute. reflexivity. Qed.
+  (* everything the proof covers is deleted; only the uncovered leaf 11111111 remains *)
+  Example del_all_covered :
+    check S8 ks8 [(k[0;0;0;0;0;0;0;1], None); (k[0;0;0;0;0;0;1;0], None); (k[0;1;0;0;0;0;0;0], None);
+                  (k[1;0;1;0;0;0;0;0], None); (k[1;0;1;1;0;0;0;0], None)] = Some (Ok true, true).
+  Proof. vm_compute. reflexivity. Qed.
+  (* inserts next to leaves, deletes, and an insert below a deleted leaf *)
+  Example mixed :
+    check S8 ks8 [(k[0;0;0;0;0;0;0;0], Some 3%N); (k[0;0;0;0;0;0;1;1], Some 3%N); (k[0;1;0;0;0;0;0;0], None);
+                  (k[1;0;1;0;0;0;0;0], None); (k[1;0;1;1;0;0;0;0], None); (k[1;0;1;1;0;0;0;1], Some 0%N)]
+    = Some (Ok true, true).
+  Proof. vm_compute. reflexivity. Qed.
+  (* inserts under terminators: the empty trie, and a terminator next to leaves *)
+  Example ins_empty :
+    check [] [k[1;0;1;1;0;0;0;1]] [(k[1;0;1;1;0;0;0;1], Some 0%N); (k[1;1;1;1;0;0;0;1], Some 0%N)] = Some (Ok true, true).
+  Proof. vm_compute. reflexivity. Qed.
+  Example ins_terminator :
+    check S8 [k[0;0;0;0;0;0;0;0]; k[0;0;1;0;0;0;0;0]; k[1;0;1;0;0;0;0;0]; k[1;1;0;0;0;0;0;0]]
+          [(k[0;0;1;0;0;0;0;0], Some 9%N); (k[0;0;1;0;0;0;0;1], Some 9%N); (k[1;1;0;0;0;0;0;0], Some 7%N)]
+    = Some (Ok true, true).
+  Proof. vm_compute. reflexivity. Qed.
+  (* the last leaf is deleted: the root becomes the terminator *)
+  Example del_last :
+    check [(k[1;0;1;1;0;0;0;1], 1%N)] [k[1;0;1;1;0;0;0;1]] [(k[1;0;1;1;0;0;0;1], None)] = Some (Ok true, true).
+  Proof. vm_compute. reflexivity. Qed.
+  Example empty_write_set : check S8 ks8 [] = Some (Ok true, true).
+  Proof. vm_compute. reflexivity. Qed.
+  (* rejected by design: 00000010 is not under a terminal of the proof for these keys (the first
+     terminal is the leaf 00000001 at depth 7); the per-path verifier, which is handed the witness
+     of the written keys themselves, accepts *)
+  Example out_of_scope :
+    check S8 [k[0;0;0;0;0;0;0;0]; k[0;0;1;0;0;0;0;0]] [(k[0;0;0;0;0;0;0;1], None); (k[0;0;0;0;0;0;1;0], None)]
+    = Some (Err MultiOpOutOfScope, true).
+  Proof. vm_compute. reflexivity. Qed.
+
+  (* queries: every individual answer is reproduced *)
+  Definition qcheck (S : kv) ks (ki kq : key) (x : value) :=
+    match honest_v 8 S ks, PathProof.verify FreeH (canonical_proof FreeH 8 S ki) ki (root_n FreeH 8 S) with
+    | Some v, Ok vp =>
+        Some (PathProof.confirm_value FreeH vp kq x, MultiProof.confirm_value FreeH v (kq, x),
+              PathProof.confirm_nonexistence FreeH vp kq, MultiProof.confirm_nonexistence FreeH v kq)
+    | _, _ => None
+    end.
+  Example q1 : qcheck S8 ks8 (k[0;0;0;0;0;0;0;0]) (k[0;0;0;0;0;0;0;1]) 1%N = Some (Ok true, Ok true, Ok false, Ok false).
+  Proof. vm_compute. reflexivity. Qed.
+  Example q2 : qcheck S8 ks8 (k[0;1;1;0;0;0;0;0]) (k[0;1;1;1;0;0;0;0]) 3%N = Some (Ok false, Ok false, Ok true, Ok true).
+  Proof. vm_compute. reflexivity. Qed.
+  (* the individual proof does not answer (out of its scope) but the multi-proof does *)
+  Example q3 : qcheck S8 ks8 (k[0;1;1;0;0;0;0;0]) (k[1;0;1;1;0;0;0;0]) 5%N
+               = Some (Err KeyOutOfScope, Ok true, Err KeyOutOfScope, Ok false).
+  Proof. vm_compute. reflexivity. Qed.
+
+  (* the theorems on an instance: the hypotheses are satisfiable *)
+  Definition S3 : kv := [([false; false; true], 1%N); ([false; true; false], 2%N); ([true; true; false], 3%N)].
+  Definition ks3 : list key := [[false; false; false]; [false; true; false]; [true; false; true]].
+  Definition W3 : wlist := [([false; false; false], Some 7%N); ([false; true; false], None); ([true; false; true], Some 8%N)].
+  Definition mp3 : multi_proof FreeH :=
+    match from_path_proofs FreeH (map (canonical_proof FreeH 3 S3) ks3) with
+    | Ok mp => mp | _ => {| mp_paths := []; mp_siblings := [] |} end.
+  Definition v3 : verified_multi_proof FreeH :=
+    match MultiProof.verify FreeH mp3 (root_n FreeH 3 S3) with
+    | Ok v => v | _ => {| vmp_inner := []; vmp_bisections := []; vmp_siblings := []; vmp_root := (FT : node FreeH) |} end.
+
+  Lemma honest3 : honest 3 S3 ks3 mp3 v3.
+  Proof.
+    unfold honest. split; [|split; [|split; [|split; [|split; [|split]]]]].
+    - split.
+      + vm_compute. repeat constructor; intros Hin; cbn in Hin; intuition discriminate.
+      + intros k0 x [Heq|[Heq|[Heq|[]]]]; inversion Heq; reflexivity.
+    - discriminate.
+    - reflexivity.
+    - intros k0 [<-|[<-|[<-|[]]]]; reflexivity.
+    - vm_compute. repeat constructor; intros Hin; cbn in Hin; intuition discriminate.
+    - vm_compute. reflexivity.
+    - vm_compute. reflexivity.
+  Qed.
+
+  Example update_small_thm :
+    MultiUpdate.verify_update FreeH 3 v3 W3 = Ok (root_n FreeH 3 (apply S3 W3)).
+  Proof.
+    apply (multi_update_correct_n FreeH FreeH_OK 3 S3 ks3 mp3 v3 W3 honest3).
+    - reflexivity.
+    - reflexivity.
+    - intros k0 o [Heq|[Heq|[Heq|[]]]]; inversion Heq; reflexivity.
+    - intros k0 o [Heq|[Heq|[Heq|[]]]]; inversion Heq; subst.
+      + exists (nth 0 (vmp_inner v3) dummy_path). split; [vm_compute; tauto|vm_compute; reflexivity].
+      + exists (nth 1 (vmp_inner v3) dummy_path). split; [vm_compute; tauto|vm_compute; reflexivity].
+      + exists (nth 2 (vmp_inner v3) dummy_path). split; [vm_compute; tauto|vm_compute; reflexivity].
+  Qed.
+
+  Example queries_small_thm : forall vp,
+    PathProof.verify FreeH (canonical_proof FreeH 3 S3 [false; true; false]) [false; true; false] (root_n FreeH 3 S3) = Ok vp ->
+    forall b, PathProof.confirm_value FreeH vp [false; true; false] 2%N = Ok b ->
+              MultiProof.confirm_value FreeH v3 ([false; true; false], 2%N) = Ok b.
+  Proof.
+    intros vp Hvp b Hb.
+    apply (proj1 (multi_queries_agree_n FreeH FreeH_OK 3 S3 ks3 mp3 v3 honest3 [false; true; false]
+                    (or_intror (or_introl eq_refl)) vp Hvp [false; true; false] 2%N eq_refl)).
+    exact Hb.
+  Qed.
+End MultiUpdateProofsExamples.
